@@ -33,6 +33,14 @@ func footnoteErrors(out []byte) (errs []string, danglingBacklinks []string, nIte
 		}
 		if id, ok := t.attr("id"); ok {
 			ids[id]++
+			// an id of the footnote family belongs to a list item of the footnote list (fn:N) or to
+			// a reference (fnrefK:N), and is spelled with natural numbers
+			if strings.HasPrefix(id, "fn:") && (t.name != "li" || !inFootnotes || !reFnItem.MatchString(id)) {
+				errs = append(errs, fmt.Sprintf("id %q on <%s> outside the footnote list or malformed", id, t.name))
+			}
+			if strings.HasPrefix(id, "fnref") && (t.name != "sup" || !reFnRef.MatchString(id)) {
+				errs = append(errs, fmt.Sprintf("id %q on <%s> is no footnote reference", id, t.name))
+			}
 		}
 		if cl, _ := t.attr("class"); t.name == "div" && cl == "footnotes" {
 			inFootnotes = true
@@ -65,7 +73,8 @@ func footnoteErrors(out []byte) (errs []string, danglingBacklinks []string, nIte
 		}
 	}
 	for id, n := range ids {
-		if n > 1 {
+		// (ids the author chose with attribute syntax are not this property's concern)
+		if n > 1 && (reFnItem.MatchString(id) || reFnRef.MatchString(id)) {
 			errs = append(errs, fmt.Sprintf("id %q occurs %d times", id, n))
 		}
 	}
@@ -146,7 +155,10 @@ func runC16(c *Ctx) {
 			case 7:
 				fmt.Fprintf(&b, "# head%s\n\n", ref)
 			case 8, 9, 10:
-				body := []string{"note", "note " + "[^" + labels[c.R.Intn(nl)] + "]", "para\n\n    second", "- item", "> q"}[c.R.Intn(5)]
+				inner := labels[c.R.Intn(nl)]
+				body := []string{"note", "note " + "[^" + labels[c.R.Intn(nl)] + "]", "para\n\n    second", "- item", "> q",
+					// a definition inside the body of a definition: directly, indented, in a quote, in a list
+					"[^" + inner + "]: inner", "outer\n\n    [^" + inner + "]: inner", "> [^" + inner + "]: inner", "- [^" + inner + "]: inner", "[^" + inner + "]: [^" + labels[c.R.Intn(nl)] + "]: deep"}[c.R.Intn(10)]
 				fmt.Fprintf(&b, "[^%s]: %s\n\n", l, body)
 			case 11:
 				fmt.Fprintf(&b, "> [^%s]: in quote\n\n", l)
